@@ -1305,6 +1305,9 @@ impl<'a> DigestsAndPaths<'a> {
     }
 }
 
+/// The largest gap in the version sequence for which every missing version is reported individually
+const MAX_MISSING_VERSIONS_LISTED: u32 = 100;
+
 fn validate_version_nums(version_nums: &BTreeSet<VersionNum>, result: &ParseValidationResult) {
     let mut padding = None;
     let mut consistent_padding = true;
@@ -1320,13 +1323,33 @@ fn validate_version_nums(version_nums: &BTreeSet<VersionNum>, result: &ParseVali
             }
         }
 
-        if *version != next_version {
-            while next_version < *version {
+        if next_version < *version {
+            // The versions are ordered, so every version in between is missing. A large gap is
+            // reported as a whole because it may span billions of versions.
+            if version.number - next_version.number > MAX_MISSING_VERSIONS_LISTED {
+                let last_missing = VersionNum {
+                    number: version.number - 1,
+                    width: next_version.width,
+                };
                 result.error(
                     ErrorCode::E010,
-                    format!("Inventory 'versions' is missing version '{}'", next_version),
+                    format!(
+                        "Inventory 'versions' is missing versions '{}' through '{}'",
+                        next_version, last_missing
+                    ),
                 );
-                next_version = next_version.next().unwrap();
+                next_version = VersionNum {
+                    number: version.number,
+                    width: next_version.width,
+                };
+            } else {
+                while next_version < *version {
+                    result.error(
+                        ErrorCode::E010,
+                        format!("Inventory 'versions' is missing version '{}'", next_version),
+                    );
+                    next_version = next_version.next().unwrap();
+                }
             }
         }
 
